@@ -226,6 +226,12 @@ type KeyEnvelope struct {
 func (k KeyEnvelope) Unwrap(kek []byte) (lorawan.AES128Key, error) {
 	var key lorawan.AES128Key
 
+	// RFC 3394: a wrapped 128 bit key is exactly three 64 bit blocks (the
+	// integrity check value and the two blocks of key data).
+	if len(k.AESKey) != len(key)+8 {
+		return key, errors.Errorf("unwrap key error: the wrapped key must be %d bytes, got %d", len(key)+8, len(k.AESKey))
+	}
+
 	block, err := aes.NewCipher(kek)
 	if err != nil {
 		return key, errors.Wrap(err, "new cipher error")
